@@ -129,6 +129,8 @@ def run(ctx):
     specs = []
     for n in range(1, maxn + 1):
         specs += dag_specs(n, "unique", payloads=("alt",))
+    if not ctx.quick:
+        specs += dag_specs(6, "unique", payloads=("alt",), outputs=("multi", "terminal-none"))
     modes = ["json-str", "json-mixed", "python"]
     args = []
     sj = [s.describe() for s in specs]
